@@ -209,6 +209,7 @@ type Op struct {
 	Any   bool
 	S     SOpts
 	Blobs [][]byte
+	Nows  []int64
 	FP    []byte
 	Raw   []string // protocol lines computed at execution time (facts)
 	Sites []PatchSite
@@ -287,8 +288,12 @@ func (o *Op) Lines() []string {
 		return []string{fmt.Sprintf("signedby any=%d %s", b2i(o.Any), o.V.String())}
 	case "sign":
 		ls := []string{fmt.Sprintf("sign groups=%s objsets=%s ht=1 fp=%s t=%s now=%d nblobs=%d", idList(o.S.Groups), o.S.objsets(), hx(o.FP), o.S.T, o.Now, len(o.Blobs))}
-		for _, b := range o.Blobs {
-			ls = append(ls, "blob h="+hx(b))
+		for i, b := range o.Blobs {
+			now := o.Now
+			if i < len(o.Nows) {
+				now = o.Nows[i] // each signature object is added with its own clock reading
+			}
+			ls = append(ls, fmt.Sprintf("blob h=%s now=%d", hx(b), now))
 		}
 		return ls
 	case "resign":
